@@ -1711,7 +1711,10 @@ impl Machine {
         let functor_stub = module_quantification.to_functor();
         let mut functor_writer = Heap::functor_writer(functor_stub);
 
-        let cell = functor_writer(&mut self.machine_st.heap).unwrap();
+        let cell = step_or_resource_error!(
+            self.machine_st,
+            functor_writer(&mut self.machine_st.heap)
+        );
         unify_fn!(&mut self.machine_st, cell, target_module_loc);
 
         if !self.machine_st.fail {
